@@ -762,7 +762,14 @@ fn enabled_threads(st: &State) -> Vec<usize> {
             let ok = match name.as_str() {
                 "vm.commit.begin" => st.manifest_holder.is_none(),
                 "ddl.create.begin" => st.ddl_holder.is_none(),
-                "txn.lock.begin" | "ddl.drop.applied" => !st.table_locks.contains_key(detail.as_str()),
+                // A thread about to await a TABLE lock may be released even when the harness
+                // believes the lock is held: if the lock works the thread simply blocks (it is
+                // not gated any more and continues, in a later step, when the holder lets go);
+                // if it does not work the thread runs inside the holder's window — which is the
+                // interleaving the mutual exclusion of compaction / DELETE / DROP has to forbid
+                // and the model and the oracles must see.  (The harness must not ASSUME the
+                // lock: with the rule `enabled iff lock free` a broken lock was never exercised.)
+                "txn.lock.begin" | "ddl.drop.applied" => true,
                 _ => true,
             };
             if ok {
